@@ -39,6 +39,7 @@ theorem biallelic_raises_iff (g : G) (hb : g.isBool = false) :
     (∃ i j, checkBiallelic false g = .raised i j) ↔ ∃ r ∈ g.data, ∃ c ∈ r, isMulti c = true :=
   checkBiallelic_raises_iff g hb
 
+/-- when `check_biallelic` raises, the (sample, variant) it names really holds an allele index above 1 -/
 theorem biallelic_error_names_offender (g : G) (i j : Nat) (h : checkBiallelic false g = .raised i j) :
     ∃ r c, g.data[i]? = some r ∧ r[j]? = some c ∧ isMulti c = true :=
   checkBiallelic_names_offender g i j h
@@ -58,6 +59,7 @@ theorem phase_raises_iff (g : G) (hp : g.hasPhase = true) :
     (∃ i j, checkPhase g = .raised i j) ↔ ∃ r ∈ g.data, ∃ c ∈ r, isUnphasedHet g c = true :=
   checkPhase_raises_iff g hp
 
+/-- when `check_phase` raises, the (sample, variant) it names really is an unphased heterozygous call -/
 theorem phase_error_names_offender (g : G) (i j : Nat) (h : checkPhase g = .raised i j) :
     ∃ r c, g.data[i]? = some r ∧ r[j]? = some c ∧ isUnphasedHet g c = true :=
   checkPhase_names_offender g i j h
@@ -79,6 +81,7 @@ theorem maf_raises_iff (num den : Nat) (g : G) :
     (∃ i j, (checkMaf num den false false g).1 = .raised i j) ↔ ∃ j, rareIdx num den g j :=
   checkMaf_raises_iff num den g
 
+/-- when `check_maf` raises, the variant it names really lies below the threshold -/
 theorem maf_error_names_offender (num den : Nat) (g : G) (i j : Nat)
     (h : (checkMaf num den false false g).1 = .raised i j) : rareIdx num den g j :=
   checkMaf_names_offender num den g i j h
@@ -96,6 +99,7 @@ theorem maf_discard_exact (num den : Nat) (warnOnly : Bool) (g : G) :
 theorem untouched_preserved {α} (l : List α) (drop : Nat → Bool) : (keepIdx l drop).Sublist l :=
   keepIdx_sublist l drop
 
+/-- removing the same index set from two parallel arrays keeps them aligned: entry `k` of one still belongs to entry `k` of the other (variants / data columns / ancestry columns) -/
 theorem parallel_arrays_aligned {α β} (l : List α) (l' : List β) (drop : Nat → Bool) (h : l.length = l'.length) :
     keepIdx (l.zip l') drop = (keepIdx l drop).zip (keepIdx l' drop) :=
   keepIdx_zip l l' drop h
